@@ -5,6 +5,7 @@ import Driver.CmpDrv
 import Driver.DblDrv
 import Driver.VecDrv
 import Driver.TokDrv
+import Driver.FmtDrv
 open Cgreen.Drv
 
 /-- Read all of stdin as lines. -/
@@ -37,6 +38,9 @@ def main (args : List String) : IO UInt32 := do
     for b in blocks lines do
       for l in Cgreen.Drv.VC.runLines (stp.toNat?.getD 100) b do out.putStrLn l
       out.putStrLn "---"
+    return 0
+  | ["fmt"] =>
+    for l in lines do out.putStrLn (Cgreen.Drv.FM.evalLine l)
     return 0
   | ["tok"] =>
     for l in lines do out.putStrLn (Cgreen.Drv.TK.evalLine l)
